@@ -214,12 +214,8 @@ class RuntimeV2_x(Runtime):
                     var_name = parameter_name[11:]
                     kwargs[parameter_name] = context.get(var_name)
 
-            # If there are parameters which are variables, we replace with actual values.
-            for k, v in kwargs.items():
-                if isinstance(v, str) and v.startswith("$"):
-                    var_name = v[1:]
-                    if var_name in context:
-                        kwargs[k] = context[var_name]
+            # (The parameter values have already been evaluated by the state machine: a string value
+            # that starts with "$" is text - e.g. something the user said -, not a variable reference.)
 
             # If we have an action server, we use it for non-system/non-chain actions
             if (
